@@ -132,3 +132,138 @@ Example C13_identity_step_corner :
   let p := single 1%N in
   iter (add (add_step p identity_step) empty_pipe) <> iter (add p (add (single identity_step) empty_pipe)).
 Proof. vm_compute. discriminate. Qed.
+Print Assumptions C13_hyps_satisfiable.
+Print Assumptions C13_identity_step_corner.
+
+(** * The CORE model (Model/Eval.v, Model/Derived.v): [e >> p] and step parameters.
+    The theorems above are about the Pipeline OBJECT structure (Model/Pipeline.v) with abstract
+    step semantics.  The two sentences "[e >> p] evaluates to [p.transform(e(o), o)]" and "step
+    parameters are evaluated from the same options at evaluation time and are reported by keys()
+    and explain()" are statements about evaluation; they are proved on the core model, where a
+    pipeline is the expression [EPipe rsteps] (steps listed TAIL FIRST, the order labrea
+    evaluates them in) and a [@pipeline_step] with parameters is [pstep f params].  For every
+    store type, store operations, switches, user code, budget, ghost oracle. *)
+From Coq Require Import ZArith String.
+From LV Require Import Model.Base Model.Template Model.Eval Model.Derived Model.EvalRun
+  Proofs.TraceProofs Proofs.C13CoreProofs.
+
+Section Core.
+  Variable S : Type.
+  Variable mem_find : N -> fp -> S -> option value.
+  Variable mem_store : N -> fp -> value -> S -> S.
+  Variable cfg : config.
+  Variable ucall : N -> list value -> cres.
+  Variable rfuel : nat.
+  Variable site_ok : expr -> dict -> bool.
+
+  Notation eval := (eval S mem_find mem_store cfg ucall rfuel site_ok).
+  Notation keys := (keys S mem_find mem_store cfg ucall rfuel site_ok).
+  Notation explain := (explain S mem_find mem_store cfg ucall rfuel site_ok).
+  Notation bind := (bind S).
+  Notation ret := (ret S).
+  Notation call_value := (call_value S ucall).
+  Notation compose_run := (compose_run S ucall).
+
+  (** what an evaluated pipeline (the value [VF B_COMPOSE fs []]) computes when called:
+      [compose_run fs x] = apply the evaluated steps [fs] in order, each to the result of the
+      previous one, the first failure ends the run … *)
+  Theorem C13_compose_run_nil : forall x, compose_run [] x = ret x.
+  Proof. reflexivity. Qed.
+  Theorem C13_compose_run_cons : forall g fs x,
+    compose_run (g :: fs) x = bind (call_value g x) (fun y => compose_run fs y).
+  Proof. reflexivity. Qed.
+  Theorem C13_call_of_evaluated_pipeline : forall fs post x s,
+    call_value (VF B_COMPOSE fs post) x s = compose_run fs x s.
+  Proof. exact (call_compose S ucall). Qed.
+  (** … it splits over concatenation ((p + q).transform on evaluated steps) … *)
+  Theorem C13_compose_run_app : forall fs gs x s,
+    compose_run (fs ++ gs)%list x s = bind (compose_run fs x) (fun y => compose_run gs y) s.
+  Proof. exact (compose_run_app S ucall). Qed.
+  (** … and a step that is a function [f] closed over evaluated parameters [pv] is called as
+      [f(x, *pv)] *)
+  Theorem C13_call_of_evaluated_step : forall f pre post x,
+    N.eqb f B_COMPOSE = false ->
+    call_value (VF f pre post) x = call_fun S ucall f (pre ++ [x] ++ post)%list.
+  Proof. exact (call_step S ucall). Qed.
+
+  (** "[e >> p] evaluates to [p.transform(e(o), o)]": the source and every step are evaluated
+      under the SAME dictionary [o] (source first, then the steps tail first), and the evaluated
+      steps are applied to the source's value in application order ([rev] of the tail-first
+      list); failures of any part are failures of the whole (behind the EvaluateRequest wrapper) *)
+  Theorem C13_apply_pipeline : forall e rsteps o s,
+    eval (EApply e (EPipe rsteps)) o s =
+      wrap_eval S (bind (eval e o) (fun x =>
+                   bind (mapM S (fun st => eval st o) rsteps) (fun fs =>
+                   compose_run (rev fs) x))) s.
+  Proof. exact (eval_apply_pipe S mem_find mem_store cfg ucall rfuel site_ok). Qed.
+
+  Theorem C13_apply_pipeline_ok : forall e rsteps o s x s1 l1 fs s2 l2,
+    eval e o s = (Ok x, s1, l1) ->
+    mapM S (fun st => eval st o) rsteps s1 = (Ok fs, s2, l2) ->
+    eval (EApply e (EPipe rsteps)) o s =
+      wrap_out S (after S (l1 ++ l2)%list (compose_run (rev fs) x s2)).
+  Proof. exact (eval_apply_pipe_ok S mem_find mem_store cfg ucall rfuel site_ok). Qed.
+
+  (** "step parameters are evaluated from the same options at evaluation time": evaluating a
+      [@pipeline_step] evaluates its parameters under [o] and yields [f] closed over their values *)
+  Theorem C13_step_parameters_evaluated : forall f ps o s,
+    eval (pstep f ps) o s =
+      wrap_eval S (bind (mapM S (fun p => eval p o) ps) (fun pv => ret (VF f [] pv))) s.
+  Proof. exact (eval_pstep S mem_find mem_store cfg ucall rfuel site_ok). Qed.
+
+  (** "… and are reported by keys() and explain()": of a step = the union over its parameters,
+      of [e >> p] = the source's followed by the union over the steps — all under the same [o] *)
+  Theorem C13_step_keys : forall f ps o s,
+    keys (pstep f ps) o s = unionM S (fun p => keys p o) ps s.
+  Proof. exact (keys_pstep S mem_find mem_store cfg ucall rfuel site_ok). Qed.
+  Theorem C13_step_explain : forall f ps o s,
+    explain (pstep f ps) o s = unionM S (fun p => explain p o) ps s.
+  Proof. exact (explain_pstep S mem_find mem_store cfg ucall rfuel site_ok). Qed.
+  Theorem C13_apply_pipeline_keys : forall e rsteps o,
+    keys (EApply e (EPipe rsteps)) o =
+      bind (keys e o) (fun a => bind (unionM S (fun st => keys st o) rsteps) (fun b => ret (a ++ b)%list)).
+  Proof. exact (keys_apply_pipe S mem_find mem_store cfg ucall rfuel site_ok). Qed.
+  Theorem C13_apply_pipeline_explain : forall e rsteps o,
+    explain (EApply e (EPipe rsteps)) o =
+      bind (explain e o) (fun a => bind (unionM S (fun st => explain st o) rsteps) (fun b => ret (a ++ b)%list)).
+  Proof. exact (explain_apply_pipe S mem_find mem_store cfg ucall rfuel site_ok). Qed.
+End Core.
+Print Assumptions C13_compose_run_nil.
+Print Assumptions C13_compose_run_cons.
+Print Assumptions C13_call_of_evaluated_pipeline.
+Print Assumptions C13_compose_run_app.
+Print Assumptions C13_call_of_evaluated_step.
+Print Assumptions C13_apply_pipeline.
+Print Assumptions C13_apply_pipeline_ok.
+Print Assumptions C13_step_parameters_evaluated.
+Print Assumptions C13_step_keys.
+Print Assumptions C13_step_explain.
+Print Assumptions C13_apply_pipeline_keys.
+Print Assumptions C13_apply_pipeline_explain.
+
+(** Non-vacuity on the real store: [Option(K10) >> (step110(x, Option(K12)) + step111(x,
+    Option(K11)))] — EPipe lists the steps tail first.  The parameters are read from the same
+    dictionary, step 110 is applied first and its result fed to step 111 (operand order: input
+    first, then the parameters), and keys()/explain() report K10, K11, K12. *)
+Open Scope string_scope.
+Definition c13_e : expr :=
+  EApply (EOption [SName 10] None None)
+         (EPipe [pstep 111 [EOption [SName 11] None None]; pstep 110 [EOption [SName 12] None None]]).
+Definition c13_o : dict := [(SName 10, JInt 1); (SName 11, JInt 2); (SName 12, JInt 3)].
+Definition c13_op (m : meth) : op := {| op_meth := m; op_expr := 0%nat; op_cfg := cfg0; op_opts := c13_o |}.
+Example C13_core_instance :
+  run_scenario [] [c13_e] [c13_op MEval; c13_op MKeys; c13_op MExplain] =
+  "ok:t111(t110(1,3),2)|c110(1,3) c111(t110(1,3),2) ## ok:[K10,K11,K12]| ## ok:[K10,K11,K12]|".
+Proof. vm_compute. reflexivity. Qed.
+Print Assumptions C13_core_instance.
+
+(** the hypotheses of [C13_apply_pipeline_ok] hold on that instance: the steps evaluate (tail
+    first) to the functions closed over the option values *)
+Example C13_core_hyps_satisfiable :
+  let ev := eval store mem_find mem_store cfg0 (ucall_of []) 40 (fun _ _ => true) in
+  fst (fst (ev (EOption [SName 10] None None) c13_o [])) = Ok (VJ (JInt 1)) /\
+  fst (fst (mapM store (fun st => ev st c13_o)
+              [pstep 111 [EOption [SName 11] None None]; pstep 110 [EOption [SName 12] None None]] [])) =
+    Ok [VF 111 [] [VJ (JInt 2)]; VF 110 [] [VJ (JInt 3)]].
+Proof. vm_compute. split; reflexivity. Qed.
+Print Assumptions C13_core_hyps_satisfiable.
